@@ -4,7 +4,7 @@
    the capacity is ANY nat (the code builds 2^bits only; C17_suffix_bits is that instance).
    Not proved here: that internal.BinaryPow(bits) = 2^bits without overflow (bits <= 15 by
    negotiation, C12) and that connections call Write with the right payloads (C02). *)
-From Gws Require Import Lib.Base Model.Window Spec.Suffix Proofs.WindowProofs Gen.Funcs Proofs.GenFuncsProofs.
+From Gws Require Import Lib.Base Model.Window Spec.Suffix Proofs.WindowProofs Gen.Funcs Proofs.GenWindowProofs.
 
 (* for every capacity and every history of chunks (any number, any sizes, any contents): no write
    panics (Some), and the window holds exactly the last min(total, cap) bytes, in order *)
